@@ -1,13 +1,27 @@
-// C38 harness (under construction): script mode.
+// C38 harness: the real miner contract's view-change phase machine (real Chain.UpdateState on a real state, view change
+// enabled, real BLS material) against Model/ViewChange.lean, plus the property oracle.
+//
+// Ops (one line each; see Drv/C38.lean): init …, pay, skip, mpk, sos, wait, keep, addm, adds, finalize.
+// `pay` closes the block with the generator's payFees and answers with a snapshot of what the contract stores
+// (phase node, DKG list, T/K/N, MPK ids, share ids, waited ids, keep list, stored magic block, gn.ViewChange,
+// gn.PrevMagicBlock); hooks/minersc_c38.go reads the unexported nodes.
 package main
 
 import (
 	"bufio"
+	"bytes"
 	"fmt"
+	"math"
 	"math/rand"
 	"os"
+	"os/exec"
+	"runtime/debug"
+	"sort"
 	"strconv"
 	"strings"
+
+	"0chain.net/smartcontract/minersc"
+	"verifharness/lib/corr"
 )
 
 // permTable is rand.Perm(k) of the seed for k = 0..n, ';'-separated, as the init/finalize ops carry it.
@@ -24,6 +38,16 @@ func permTable(seed int64, n int) string {
 	return strings.Join(parts, ";")
 }
 
+func normPay(r string) string {
+	switch {
+	case r == "ok":
+		return "ok"
+	case strings.HasPrefix(r, "panic"):
+		return "panic"
+	}
+	return "fail"
+}
+
 func impl(ops []string) []string {
 	outs := make([]string, len(ops))
 	var wd *world
@@ -31,7 +55,7 @@ func impl(ops []string) []string {
 		func() {
 			defer func() {
 				if r := recover(); r != nil {
-					outs[i] = fmt.Sprintf("panic %v", r)
+					outs[i] = "panic"
 				}
 			}()
 			ws := strings.Fields(op)
@@ -55,27 +79,654 @@ func impl(ops []string) []string {
 	return outs
 }
 
-func main() {
-	if f := os.Getenv("VERIF_C38_SCRIPT"); f != "" {
-		fh, _ := os.Open(f)
-		sc := bufio.NewScanner(fh)
-		sc.Buffer(make([]byte, 1<<20), 1<<24)
-		var ops []string
-		for sc.Scan() {
-			if l := strings.TrimSpace(sc.Text()); l != "" && !strings.HasPrefix(l, "#") {
-				if strings.Contains(l, "perms=auto") {
-					seed, _ := strconv.ParseInt(kv(strings.Fields(l))["seed"], 10, 64)
-					l = strings.Replace(l, "perms=auto", "perms="+permTable(seed, nMinerKeys), 1)
-				}
-				ops = append(ops, l)
-			}
+// probe replays the prefix in a child process and runs one more op there: a nil dereference inside the goroutine
+// that Chain.ExecuteSmartContract starts cannot be recovered in-process.
+func probe(prefix []string, op string) string {
+	f, err := os.CreateTemp("", "c38-probe-*.txt")
+	if err != nil {
+		return "probe-error"
+	}
+	defer os.Remove(f.Name())
+	for _, o := range prefix {
+		fmt.Fprintln(f, o)
+	}
+	fmt.Fprintln(f, op)
+	f.Close()
+	cmd := exec.Command(os.Args[0])
+	cmd.Env = append(os.Environ(), "VERIF_C38_SCRIPT="+f.Name(), "VERIF_C38_UNGUARDED=1")
+	var out, errb bytes.Buffer
+	cmd.Stdout, cmd.Stderr = &out, &errb
+	err = cmd.Run()
+	if err != nil {
+		if strings.Contains(errb.String(), "nil pointer dereference") && strings.Contains(errb.String(), "ShareOrSigns).Validate") {
+			return "crash"
 		}
-		for i, o := range impl(ops) {
-			op := ops[i]
-			if len(op) > 60 {
-				op = op[:60] + "..."
+		return "probe-died " + firstLine(errb.String())
+	}
+	lines := strings.Split(strings.TrimSpace(out.String()), "\n")
+	last := lines[len(lines)-1]
+	if j := strings.Index(last, "=> "); j >= 0 {
+		return last[j+3:]
+	}
+	return "probe-error"
+}
+
+func firstLine(s string) string {
+	if i := strings.IndexByte(s, '\n'); i >= 0 {
+		s = s[:i]
+	}
+	return strings.ReplaceAll(s, " ", "_")
+}
+
+func scriptMode(path string) {
+	fh, err := os.Open(path)
+	if err != nil {
+		fmt.Fprintln(os.Stderr, err)
+		os.Exit(2)
+	}
+	sc := bufio.NewScanner(fh)
+	sc.Buffer(make([]byte, 1<<20), 1<<26)
+	var ops []string
+	for sc.Scan() {
+		if l := strings.TrimSpace(sc.Text()); l != "" && !strings.HasPrefix(l, "#") {
+			if strings.Contains(l, "perms=auto") {
+				seed, _ := strconv.ParseInt(kv(strings.Fields(l))["seed"], 10, 64)
+				l = strings.Replace(l, "perms=auto", "perms="+permTable(seed, nMinerKeys), 1)
 			}
-			fmt.Printf("%-40s => %s\n", op, o)
+			ops = append(ops, l)
 		}
 	}
+	var mo []string
+	if z := os.Getenv("VERIF_C38_ZDRV"); z != "" {
+		mo, _ = corr.RunModel(z, "C38", ops)
+	}
+	for i, o := range impl(ops) {
+		op := ops[i]
+		if len(op) > 50 {
+			op = op[:50] + "..."
+		}
+		fmt.Printf("%-34s => %s\n", op, o)
+		if mo != nil && i < len(mo) && mo[i] != o {
+			fmt.Printf("%-34s MODEL %s\n", "", mo[i])
+		}
+	}
+}
+
+// ---------------------------------------------------------------------------------------------------------------
+// generator: a director that looks at the real contract state while it writes the script, so that view changes
+// get through all phases, with out-of-phase, duplicated, invalid and foreign transactions mixed in.
+
+func bitsOf(f float64) string { return fmt.Sprintf("%016x", math.Float64bits(f)) }
+
+func pick[T any](r *rand.Rand, l []T) T { return l[r.Intn(len(l))] }
+
+func gen(r *rand.Rand, thorough bool, caseNo int) []string {
+	setup()
+	minN := 1 + r.Intn(4)
+	maxN := minN + r.Intn(5)
+	minS := 1 + r.Intn(2)
+	maxS := minS + r.Intn(3)
+	tp := pick(r, []float64{0.66, 0.5, 0.66, 0.34, 1})
+	kp := pick(r, []float64{0.75, 0.5, 0.75, 0.6, 1, 0.28})
+	xp := pick(r, []float64{0.7, 0.7, 0.35, 0.5, 1, 0.28, 0.1})
+	if r.Intn(25) == 0 {
+		xp = 0
+	}
+	var rounds []string
+	for i := 0; i < 5; i++ {
+		rounds = append(rounds, strconv.Itoa(1+r.Intn(4)))
+	}
+	nPrevM := 2 + r.Intn(4)
+	perm := r.Perm(8)
+	var prevM, miners []string
+	stakes := []uint64{0, 10, 10, 20, 20, 30, 5}
+	for i, m := range perm {
+		lb := fmt.Sprintf("m%d", m)
+		if i < nPrevM {
+			prevM = append(prevM, lb)
+			if r.Intn(8) != 0 {
+				miners = append(miners, fmt.Sprintf("%s:%d", lb, pick(r, stakes)))
+			}
+		} else if r.Intn(3) != 0 {
+			miners = append(miners, fmt.Sprintf("%s:%d", lb, pick(r, stakes)))
+		}
+	}
+	r.Shuffle(len(miners), func(i, j int) { miners[i], miners[j] = miners[j], miners[i] })
+	nPrevS := 1 + r.Intn(3)
+	sp := r.Perm(nSharderKeys)
+	var prevS, sharders []string
+	for i, s := range sp {
+		lb := fmt.Sprintf("s%d", s)
+		if i < nPrevS {
+			prevS = append(prevS, lb)
+			if r.Intn(8) != 0 {
+				sharders = append(sharders, fmt.Sprintf("%s:%d", lb, pick(r, stakes)))
+			}
+		} else if r.Intn(2) == 0 {
+			sharders = append(sharders, fmt.Sprintf("%s:%d", lb, pick(r, stakes)))
+		}
+	}
+	seed := r.Int63()
+	orDash := func(l []string) string {
+		if len(l) == 0 {
+			return "-"
+		}
+		return strings.Join(l, ",")
+	}
+	init := fmt.Sprintf("init minN=%d maxN=%d minS=%d maxS=%d t=%s k=%s x=%s rounds=%s miners=%s sharders=%s prevM=%s prevS=%s seed=%d perms=%s",
+		minN, maxN, minS, maxS, bitsOf(tp), bitsOf(kp), bitsOf(xp), strings.Join(rounds, ","), orDash(miners), orDash(sharders),
+		strings.Join(prevM, ","), strings.Join(prevS, ","), seed, permTable(seed, nMinerKeys))
+	ops := []string{init}
+	wd, res := newWorld(strings.Fields(init)[1:])
+	if res != "ok" {
+		return ops
+	}
+	emit := func(op string) string {
+		ops = append(ops, op)
+		return wd.step(strings.Fields(op))
+	}
+	anyMiner := func() string { return fmt.Sprintf("m%d", r.Intn(10)) }
+	anyClient := func() string {
+		if r.Intn(3) == 0 {
+			return fmt.Sprintf("x%d", r.Intn(2))
+		}
+		return anyMiner()
+	}
+	nRounds := 30 + r.Intn(50)
+	if thorough {
+		nRounds = 60 + r.Intn(200)
+	}
+	probes := 0
+	afterVC := -1 // rounds still to run once a view change has come into force (the machine then only restarts)
+	for rd := 0; rd < nRounds && afterVC != 0; rd++ {
+		if afterVC > 0 {
+			afterVC--
+		}
+		st, err := minersc.VerifC38Read(wd.w.SCtx())
+		if err != nil {
+			break
+		}
+		phase := 0
+		if st.HasPhase {
+			phase = st.Phase
+		}
+		var dkg []string
+		for _, id := range st.DKG {
+			dkg = append(dkg, labelOf[id])
+		}
+		var mpkIDs []string
+		for _, id := range st.Mpks {
+			mpkIDs = append(mpkIDs, labelOf[id])
+		}
+		hasMpk := func(l string) bool {
+			for _, x := range mpkIDs {
+				if x == l {
+					return true
+				}
+			}
+			return false
+		}
+		lazy := r.Intn(6) == 0 // a round in which little happens (so that some DKGs fail and restart)
+		switch phase {
+		case 0:
+			if r.Intn(6) == 0 {
+				lb := fmt.Sprintf("m%d", r.Intn(10))
+				emit(fmt.Sprintf("addm %s %d", lb, pick(r, stakes)))
+			}
+			if r.Intn(10) == 0 {
+				emit(fmt.Sprintf("adds s%d %d", r.Intn(nSharderKeys), pick(r, stakes)))
+			}
+		case 1:
+			for _, m := range dkg {
+				if lazy || r.Intn(5) == 0 {
+					continue
+				}
+				size := st.T
+				switch r.Intn(14) {
+				case 0:
+					size = st.T + 1
+				case 1:
+					if size > 0 {
+						size--
+					}
+				}
+				op := fmt.Sprintf("mpk %s %d", m, size)
+				switch r.Intn(16) {
+				case 0:
+					op += " as=" + anyClient()
+				case 1:
+					op += " as=" + pick(r, dkg)
+				}
+				emit(op)
+				if r.Intn(12) == 0 {
+					emit(op) // duplicate
+				}
+			}
+			if r.Intn(8) == 0 {
+				emit(fmt.Sprintf("mpk %s %d", anyClient(), st.T)) // mostly a non-member
+			}
+			for i := 0; i < nSharderKeys; i++ {
+				if lazy {
+					break
+				}
+				if r.Intn(3) == 0 {
+					emit(fmt.Sprintf("keep %s s%d", anyClient(), i))
+				}
+			}
+			for _, s := range prevS {
+				if !lazy && r.Intn(3) != 0 {
+					emit(fmt.Sprintf("keep %s %s", anyClient(), s))
+				}
+			}
+		case 3:
+			nOthers := len(dkg) - 1
+			for _, m := range dkg {
+				if lazy || r.Intn(6) == 0 || !hasMpk(m) {
+					continue
+				}
+				count := nOthers
+				switch r.Intn(10) {
+				case 0:
+					count = st.K - 2
+				case 1:
+					count = st.K - 1
+				case 2:
+					count = nOthers + 2
+				}
+				if count < 0 {
+					count = 0
+				}
+				v := "valid"
+				if r.Intn(10) == 0 && count > 0 {
+					v = "bad"
+				}
+				op := fmt.Sprintf("sos %s %d %s", m, count, v)
+				emit(op)
+				if r.Intn(12) == 0 {
+					emit(op)
+				}
+			}
+			if len(mpkIDs) > 0 && r.Intn(6) == 0 {
+				// somebody replays the shares of a contributor
+				emit(fmt.Sprintf("sos %s %d valid as=%s", anyClient(), nOthers, pick(r, mpkIDs)))
+			}
+			if probes < 2 && r.Intn(12) == 0 {
+				// shares under an id that has no MPK
+				probes++
+				emit(fmt.Sprintf("sos %s %d valid", anyClient(), nOthers+r.Intn(2)))
+			}
+		case 4:
+			for _, m := range dkg {
+				if lazy || r.Intn(7) == 0 {
+					continue
+				}
+				emit("wait " + m)
+				if r.Intn(10) == 0 {
+					emit("wait " + m)
+				}
+			}
+			if r.Intn(6) == 0 {
+				emit("wait " + anyClient())
+			}
+		}
+		// out-of-phase noise
+		if r.Intn(7) == 0 {
+			switch r.Intn(4) {
+			case 0:
+				emit(fmt.Sprintf("mpk %s %d", anyMiner(), st.T))
+			case 1:
+				if len(mpkIDs) > 0 || phase != 3 {
+					emit(fmt.Sprintf("sos %s 0 valid", anyMiner()))
+				}
+			case 2:
+				emit("wait " + anyClient())
+			case 3:
+				emit(fmt.Sprintf("keep %s s%d", anyClient(), r.Intn(nSharderKeys)))
+			}
+		}
+		if r.Intn(25) == 0 {
+			emit("skip")
+		} else {
+			out := emit("pay")
+			_ = out
+		}
+		// finalization of a magic block that just came into force
+		if st2, err := minersc.VerifC38Read(wd.w.SCtx()); err == nil && st2.HasMB && st2.HasPrevMB && st2.ViewChange == st2.MBStart && st2.MBNumber != wd.lfmbNo && r.Intn(3) != 0 {
+			s2 := r.Int63()
+			emit(fmt.Sprintf("finalize seed=%d perms=%s", s2, permTable(s2, nMinerKeys)))
+			wd.lfmbNo = st2.MBNumber
+			if afterVC < 0 {
+				afterVC = 4 + r.Intn(8)
+			}
+		}
+	}
+	return ops
+}
+
+// ---------------------------------------------------------------------------------------------------------------
+// oracle: C38 stated on the implementation's answers.
+
+type snap struct {
+	hasPN                      bool
+	phase                      int
+	start, cur, restarts       int64
+	dkg                        map[string]bool
+	T, K                       int
+	mpks, gsos, waited, keep   map[string]bool
+	hasMB                      bool
+	mbNumber, mbStart          int64
+	mbM, mbS, mbVM, mbVS       map[string]bool
+	vc                         int64
+}
+
+func setOf(s string) map[string]bool {
+	m := map[string]bool{}
+	if s == "-" || s == "" {
+		return m
+	}
+	for _, x := range strings.Split(s, ",") {
+		m[x] = true
+	}
+	return m
+}
+
+func parseSnap(out string) (sn snap, ok bool) {
+	parts := strings.Split(out, " | ")
+	if len(parts) < 10 {
+		return sn, false
+	}
+	f := strings.Fields(parts[1])
+	if len(f) == 5 {
+		sn.hasPN = true
+		sn.phase, _ = strconv.Atoi(f[1])
+		sn.start, _ = strconv.ParseInt(f[2], 10, 64)
+		sn.cur, _ = strconv.ParseInt(f[3], 10, 64)
+		sn.restarts, _ = strconv.ParseInt(f[4], 10, 64)
+	}
+	f = strings.Fields(parts[2])
+	if len(f) < 4 {
+		return sn, false
+	}
+	sn.dkg = setOf(f[1])
+	sn.T, _ = strconv.Atoi(strings.TrimPrefix(f[2], "T="))
+	sn.K, _ = strconv.Atoi(strings.TrimPrefix(f[3], "K="))
+	get := func(p string) map[string]bool { f := strings.Fields(p); return setOf(f[len(f)-1]) }
+	sn.mpks, sn.gsos, sn.waited, sn.keep = get(parts[3]), get(parts[4]), get(parts[5]), get(parts[6])
+	f = strings.Fields(parts[7])
+	if len(f) >= 10 {
+		sn.hasMB = true
+		sn.mbNumber, _ = strconv.ParseInt(f[1], 10, 64)
+		sn.mbStart, _ = strconv.ParseInt(f[2], 10, 64)
+		sn.mbM, sn.mbS = setOf(strings.TrimPrefix(f[6], "m=")), setOf(strings.TrimPrefix(f[7], "s="))
+		sn.mbVM, sn.mbVS = setOf(strings.TrimPrefix(f[8], "vm=")), setOf(strings.TrimPrefix(f[9], "vs="))
+	}
+	f = strings.Fields(parts[8])
+	sn.vc, _ = strconv.ParseInt(f[1], 10, 64)
+	return sn, true
+}
+
+var known = map[string]int{
+	"C38:wait-accepted-from-non-member":                    5,
+	"C38:sos-with-unknown-mpk-id-crashes-node":             4,
+	"C38:sos-accepted-from-non-member":                     3,
+	"C38:mpk-accepted-twice-from-one-miner":                2,
+	"C38:stored-magic-block-pools-have-no-visible-members": 1,
+}
+
+func prio(sig string) int {
+	if p, ok := known[sig]; ok {
+		return p
+	}
+	return 100
+}
+
+var stat struct {
+	pays, advances, restarts, cycles, mpkOK, sosOK, waitOK, rejected, mbs, vcDone, vcCancelled int64
+	phaseSeen                                                                              [5]int64
+}
+
+func oracle(ops, outs []string) *corr.Violation {
+	var first *corr.Violation
+	note := func(i int, sig, msg string) {
+		v := &corr.Violation{Signature: "C38:" + sig, Message: fmt.Sprintf("op %d %q: %s", i, trunc(ops[i]), msg), Ops: ops, Impl: outs}
+		// an unlisted kind of failure first; among the listed ones the rarer first, so that every kind gets its replay
+		if first == nil || prio(v.Signature) > prio(first.Signature) {
+			first = v
+		}
+	}
+	if len(ops) == 0 || !strings.HasPrefix(ops[0], "init ") || outs[0] != "ok" {
+		return nil
+	}
+	a := kv(strings.Fields(ops[0]))
+	var rounds [5]int64
+	for i, x := range strings.Split(a["rounds"], ",") {
+		if i < 5 {
+			rounds[i], _ = strconv.ParseInt(x, 10, 64)
+		}
+	}
+	prevM, prevS := setOf(a["prevM"]), setOf(a["prevS"])
+	var cur snap // what the contract held after the last payFees
+	cur.dkg, cur.mpks, cur.gsos, cur.waited, cur.keep = map[string]bool{}, map[string]bool{}, map[string]bool{}, map[string]bool{}, map[string]bool{}
+	mpkBy, sosBy, waitBy := map[string]int{}, map[string]int{}, map[string]int{}
+	nMpk, nSos := 0, 0 // accepted since the last snapshot
+	lastMB := int64(-1)
+	for i := 1; i < len(ops); i++ {
+		ws := strings.Fields(ops[i])
+		out := outs[i]
+		phase := 0
+		if cur.hasPN {
+			phase = cur.phase
+		}
+		switch ws[0] {
+		case "mpk":
+			if out != "ok" {
+				stat.rejected++
+				continue
+			}
+			stat.mpkOK++
+			size, _ := strconv.Atoi(ws[2])
+			switch {
+			case phase != 1:
+				note(i, "mpk-accepted-out-of-phase", fmt.Sprintf("accepted in phase %d", phase))
+			case !cur.dkg[ws[1]]:
+				note(i, "mpk-accepted-from-non-member", "sender is not in the DKG miners list")
+			case size != cur.T:
+				note(i, "mpk-accepted-with-wrong-size", fmt.Sprintf("size %d, T = %d", size, cur.T))
+			case mpkBy[ws[1]] > 0:
+				note(i, "mpk-accepted-twice-from-one-miner", fmt.Sprintf("miner %s had already contributed in this phase; the payload's ID field replaces the sender as the key", ws[1]))
+			}
+			mpkBy[ws[1]]++
+			nMpk++
+		case "sos":
+			if out == "crash" {
+				note(i, "sos-with-unknown-mpk-id-crashes-node", "nil dereference in ShareOrSigns.Validate (chaincore/block/sos.go:65: no MPK under the payload's id); the contract runs in a goroutine without recover (chaincore/chain/state.go:144), so the process dies")
+				continue
+			}
+			if out != "ok" {
+				stat.rejected++
+				continue
+			}
+			stat.sosOK++
+			count, _ := strconv.Atoi(ws[2])
+			switch {
+			case phase != 3:
+				note(i, "sos-accepted-out-of-phase", fmt.Sprintf("accepted in phase %d", phase))
+			case count < cur.K-1:
+				note(i, "sos-accepted-with-too-few-entries", fmt.Sprintf("%d entries, K-1 = %d", count, cur.K-1))
+			case ws[3] != "valid":
+				note(i, "sos-accepted-invalid", "payload with a share that does not verify was accepted")
+			case sosBy[ws[1]] > 0:
+				note(i, "sos-accepted-twice", "second acceptance for the same sender in one phase")
+			case !cur.dkg[ws[1]]:
+				note(i, "sos-accepted-from-non-member", fmt.Sprintf("%s is not in the DKG miners list (it replayed the shares of a contributor)", ws[1]))
+			}
+			sosBy[ws[1]]++
+			nSos++
+		case "wait":
+			if out != "ok" {
+				stat.rejected++
+				continue
+			}
+			stat.waitOK++
+			switch {
+			case phase != 4:
+				note(i, "wait-accepted-out-of-phase", fmt.Sprintf("accepted in phase %d", phase))
+			case waitBy[ws[1]] > 0:
+				note(i, "wait-accepted-twice", "second acceptance for the same sender in one phase")
+			case !cur.dkg[ws[1]]:
+				note(i, "wait-accepted-from-non-member", fmt.Sprintf("%s is not in the DKG miners list", ws[1]))
+			}
+			waitBy[ws[1]]++
+		case "finalize":
+			if out == "ok" && cur.hasMB {
+				prevM, prevS = cur.mbVM, cur.mbVS // what HasNode of the new latest finalized magic block sees
+			}
+		case "pay":
+			stat.pays++
+			if !strings.HasPrefix(out, "ok | ") {
+				if strings.HasPrefix(out, "panic") {
+					note(i, "pay-fees-panics", "payFees panicked")
+				}
+				continue
+			}
+			sn, ok := parseSnap(out)
+			if !ok || !sn.hasPN {
+				note(i, "no-phase-node", "payFees succeeded but stored no phase node")
+				continue
+			}
+			stat.phaseSeen[sn.phase%5]++
+			// the phase node GetPhaseNode handed to setPhaseNode
+			old := cur
+			if !old.hasPN {
+				old.hasPN, old.phase, old.start, old.restarts = true, 0, sn.cur, 0
+			}
+			elapsed := sn.cur-old.start >= rounds[old.phase%5]
+			switch {
+			case sn.phase == old.phase && sn.start == old.start && sn.restarts == old.restarts:
+				// no move
+			case sn.restarts == old.restarts+1 && sn.phase == 0 && sn.start == sn.cur:
+				stat.restarts++
+				if !elapsed {
+					note(i, "restart-before-phase-rounds", fmt.Sprintf("restart after %d rounds of phase %d (configured %d)", sn.cur-old.start, old.phase, rounds[old.phase%5]))
+				}
+			case (sn.phase == old.phase+1 && old.phase < 4 && sn.restarts == old.restarts || old.phase == 4 && sn.phase == 0 && sn.restarts == 0) && sn.start == sn.cur:
+				stat.advances++
+				if old.phase == 4 {
+					stat.cycles++
+				}
+				if !elapsed {
+					note(i, "advance-before-phase-rounds", fmt.Sprintf("phase %d left after %d rounds (configured %d)", old.phase, sn.cur-old.start, rounds[old.phase%5]))
+				}
+				// the phase's condition, as far as the snapshots show it
+				switch old.phase {
+				case 1, 2:
+					if n := len(old.mpks) + nMpk; n < old.K {
+						note(i, "advance-without-condition", fmt.Sprintf("Contribute left with %d MPKs, K = %d", n, old.K))
+					}
+				case 3:
+					if n := len(old.gsos) + nSos; n < old.K {
+						note(i, "advance-without-condition", fmt.Sprintf("Publish left with %d shares, K = %d", n, old.K))
+					}
+				}
+			default:
+				note(i, "phase-order", fmt.Sprintf("phase node went from (phase %d start %d restarts %d) to (phase %d start %d restarts %d)", old.phase, old.start, old.restarts, sn.phase, sn.start, sn.restarts))
+			}
+			if sn.phase != old.phase || sn.restarts != old.restarts {
+				mpkBy, sosBy, waitBy = map[string]int{}, map[string]int{}, map[string]int{}
+			}
+			nMpk, nSos = 0, 0
+			// a newly produced magic block
+			if sn.hasMB && sn.mbNumber*1000003+sn.mbStart != lastMB {
+				lastMB = sn.mbNumber*1000003 + sn.mbStart
+				stat.mbs++
+				if !intersects(sn.mbM, prevM) {
+					note(i, "magic-block-without-previous-miner", fmt.Sprintf("magic block miners %v, previous set %v", keysOf(sn.mbM), keysOf(prevM)))
+				} else if !intersects(sn.mbS, prevS) {
+					note(i, "magic-block-without-previous-sharder", fmt.Sprintf("magic block sharders %v, previous set %v", keysOf(sn.mbS), keysOf(prevS)))
+				} else if len(sn.mbVM) == 0 || len(sn.mbVS) == 0 {
+					note(i, "stored-magic-block-pools-have-no-visible-members", fmt.Sprintf("the stored magic block lists miners %v / sharders %v in Nodes, but HasNode/Size/Keys (NodesMap) see none: node.Pool.UnmarshalMsg does not restore NodesMap", keysOf(sn.mbM), keysOf(sn.mbS)))
+				}
+			}
+			if old.vc != sn.vc && sn.hasMB && sn.vc != sn.mbStart {
+				stat.vcCancelled++
+			}
+			cur = sn
+		}
+	}
+	return first
+}
+
+func intersects(a, b map[string]bool) bool {
+	for k := range a {
+		if b[k] {
+			return true
+		}
+	}
+	return false
+}
+
+func keysOf(m map[string]bool) []string {
+	var k []string
+	for x := range m {
+		k = append(k, x)
+	}
+	sort.Strings(k)
+	return k
+}
+
+func trunc(s string) string {
+	if len(s) > 60 {
+		return s[:60] + "…"
+	}
+	return s
+}
+
+func fixedInit(extra string) string {
+	return "init minN=3 maxN=5 minS=1 maxS=2 t=" + bitsOf(0.66) + " k=" + bitsOf(0.75) + " x=" + bitsOf(0.7) +
+		" rounds=2,3,2,3,3 miners=m0:10,m1:10,m2:20,m3:5,m4:7 sharders=s0:5,s1:6,s2:7 prevM=m0,m1,m2,m3 prevS=s0,s1 seed=7 perms=" + permTable(7, nMinerKeys) + extra
+}
+
+func main() {
+	if f := os.Getenv("VERIF_C38_SCRIPT"); f != "" {
+		scriptMode(f)
+		return
+	}
+	debug.SetGCPercent(600) // the chain-wide state cache keeps every world's entries: GC marking would dominate
+	toPublish := []string{"pay", "pay", "pay", "mpk m0 3", "mpk m1 3", "mpk m2 3", "mpk m3 3", "keep m0 s0", "keep m0 s2", "pay", "pay", "pay", "pay", "pay"}
+	fin := fmt.Sprintf("finalize seed=9 perms=%s", permTable(9, nMinerKeys))
+	corr.Main(corr.Prop{
+		ID: "C38", Model: "C38", Gen: gen, Impl: impl, Oracle: oracle, Serial: true,
+		Cases: func(th bool) int {
+			if th {
+				return 300
+			}
+			return 24
+		},
+		Fixed: [][]string{
+			// a complete view change, then the next DKG attempts (stuck at Start: gn.PrevMagicBlock has no visible members)
+			append(append([]string{fixedInit("")}, toPublish...), "sos m0 3 valid", "sos m1 3 valid", "sos m2 3 valid", "sos m3 3 valid", "pay", "pay",
+				"wait m0", "wait m1", "wait m2", "wait m3", "wait m0", "pay", "pay", "pay", fin, "pay", "pay", "pay", "pay", "pay"),
+			// witness: one miner contributes three MPKs (own id, another member's id, a stranger's id)
+			{fixedInit(""), "pay", "pay", "pay", "mpk m3 3 as=m4", "mpk m3 3 as=x1", "mpk m3 3", "mpk m3 3", "pay"},
+			// witness: a stranger replays a contributor's shares in Publish
+			append(append([]string{fixedInit("")}, toPublish...), "sos m0 3 valid", "sos x0 3 valid as=m0", "sos x0 3 valid as=m0", "pay"),
+			// witness: wait confirmations from a stranger and from an unregistered miner
+			append(append([]string{fixedInit("")}, toPublish...), "sos m0 3 valid", "sos m1 3 valid", "sos m2 3 valid", "sos m3 3 valid", "pay", "pay",
+				"wait x0", "wait m7", "wait m0", "pay"),
+			// witness: shares under an id that has no MPK (run in a child process)
+			append(append([]string{fixedInit("")}, toPublish...), "sos x1 3 valid", "sos m4 1 valid", "sos m0 3 valid", "pay"),
+			// too few waits: the view change is cancelled
+			append(append([]string{fixedInit("")}, toPublish...), "sos m0 3 valid", "sos m1 3 valid", "sos m2 3 valid", "sos m3 3 valid", "pay", "pay",
+				"wait m0", "pay", "pay", "pay", "pay", "pay", "pay"),
+		},
+		Extra: func() map[string]interface{} {
+			mv, ph := minersc.VerifC38Tables()
+			// once per run: the crash witness through the real Chain.UpdateState in a child process
+			child := probe(append([]string{fixedInit("")}, toPublish...), "sos x1 3 valid")
+			return map[string]interface{}{"sos_without_mpk_through_UpdateState_in_child_process": child,"payFees": stat.pays, "phase_advances": stat.advances, "dkg_restarts": stat.restarts, "completed_cycles": stat.cycles,
+				"mpk_accepted": stat.mpkOK, "sos_accepted": stat.sosOK, "wait_accepted": stat.waitOK, "dkg_txns_rejected": stat.rejected,
+				"magic_blocks_produced": stat.mbs, "view_changes_cancelled": stat.vcCancelled, "pay_snapshots_by_phase": stat.phaseSeen,
+				"moveFunctions": mv, "phaseFuncs": ph}
+		},
+	})
 }
